@@ -59,7 +59,8 @@ def gen_pattern(rng, nonneg=True, max_points=4096):
         if total <= max_points:
             break
     # (lists of different lengths cannot be built: StridePattern.verify rejects them)
-    ss = rng.choice([[], [8], [1], [8, 64], [0], [0, 8], [8, 0], [1, 8, 64]])
+    # spatial strides: empty, zero (short-circuits canonicalize), negative entries (print/parse of `-` in every list)
+    ss = rng.choice([[], [8], [1], [8, 64], [0], [0, 8], [8, 0], [1, 8, 64], [-8], [64, -1]])
     return ub, ts, ss
 
 
@@ -166,6 +167,7 @@ def l2(ctx, deep):
             ss = [s for s in ss if s != 0]        # zero spatial stride short-circuits canonicalize
         if i % 9 == 0 and ub:
             ub = [-b if rng.random() < 0.3 else b for b in ub]   # print/parse of negative entries
+            ts = [-t if rng.random() < 0.3 else t for t in ts]
         ctx.count({"part": PART, "L2": [ub, ts, ss]}, len([b for b in ub if b != 1]) >= 2, f"l2sp{ub}{ts}{ss}", "L2:StridePattern")
         for f in check_pattern(ub, ts, ss):
             fails.append({"part": PART, "what": f["what"], "input": {"ub": ub, "ts": ts, "ss": ss}, "detail": f["detail"], "klass": None})
